@@ -10,7 +10,7 @@ Sources (Snowflake documentation):
     boolean it becomes SQL NULL. (The checks map JSON null and SQL NULL both to None, as DESIGN.md says.)
   * TO_VARCHAR / TO_DECIMAL / TO_DOUBLE / TO_BOOLEAN on VARIANT input: a string is returned as is (no quotes), a number
     as its text, a boolean as 'true'/'false'; numbers convert numerically (NUMBER has scale 0 by default and rounds
-    half away from zero), 0 -> FALSE and non-zero -> TRUE.
+    half away from zero); a JSON boolean cast to BOOLEAN is itself.
   * ARRAY_SIZE: number of elements, 0 for an empty array, NULL when the VARIANT does not hold an array.
   * OBJECT_CONSTRUCT omits pairs whose key or value is NULL; OBJECT_CONSTRUCT_KEEP_NULL keeps NULL values (still
     omits NULL keys).
@@ -164,12 +164,12 @@ def to_float(v):
 
 
 def to_boolean(v):
+    """::BOOLEAN: a JSON boolean converts to itself. Numbers (documented for numeric *expressions*: 0 -> FALSE, else
+    TRUE, but not spelled out for VARIANT input), strings and containers: not demanded."""
     if _nul(v):
         return None
     if isinstance(v, bool):
         return v
-    if isinstance(v, (int, float)):
-        return v != 0
     return UNDEMANDED
 
 
@@ -343,11 +343,28 @@ def observed_doc(got):
     raise NotJson(repr(got))
 
 
+def _native_equal(expected, got) -> bool:
+    """`got` is a Python list/dict handed out by the driver (an ARRAY result that is not JSON text): its elements may
+    themselves be JSON text where the expected element is a container (the result type is not this property's business)"""
+    if isinstance(got, str) and isinstance(expected, (list, dict)):
+        try:
+            got = json.loads(got)
+        except ValueError:
+            return False
+    if isinstance(expected, list):
+        return isinstance(got, (list, tuple)) and len(got) == len(expected) and all(_native_equal(e, g) for e, g in zip(expected, got))
+    if isinstance(expected, dict):
+        return isinstance(got, dict) and set(got) == set(expected) and all(_native_equal(expected[k], got[k]) for k in expected)
+    return json_equal(expected, got)
+
+
 def matches(mode, expected, got) -> bool:
     """Does the fetched Python value `got` equal `expected` under comparison mode json|text|num|bool ?"""
     if expected is MISSING:
         expected = None
     if mode == "json":
+        if isinstance(got, (list, dict)):
+            return _native_equal(expected, got)
         try:
             return json_equal(expected, observed_doc(got))
         except NotJson:
